@@ -690,7 +690,7 @@ impl Navigate for Assembler {
                                     self.code.push(dst);
                                     self.code.push(src);
                                     if let Some(pc) = self.pc.as_mut() {
-                                        *pc += 3;
+                                        *pc += 1; // operands were counted by push_data_list
                                     }
                                     return Ok(Navigation::Exit);
                                 }
